@@ -1,7 +1,7 @@
 (* C10 - A dry run changes nothing and over-approximates the next build. *)
 From Verif Require Import Base.Prelude Base.Graph Model.Sorter Model.Expr Model.Engine Model.EngineRun.
 From Verif Require Import Proofs.GraphProofs Proofs.SorterProofs Proofs.EngineTask Proofs.EngineLoop
-     Proofs.EngineBuild Proofs.EngineDag Proofs.EngineRefute.
+     Proofs.EngineBuild Proofs.EngineDag Proofs.EngineRefute Proofs.EngineHistory.
 
 (* a dry-run build starts no task function and leaves every file as it was (the model's
    file map is exactly the set of regular files of the project outside .pytask) *)
@@ -19,7 +19,7 @@ Theorem C10_dry_run_inert_rejected : forall is_word lower body c ts faults pref 
   build is_word lower body c ts faults pref w = mkRes XDag w [] [].
 Proof. exact rejected_graph_is_inert. Qed.
 
-(* per task, under dry-run: silent, and the only database writes are PERSISTENCE rows *)
+(* per task, under dry-run: silent *)
 Theorem C10_dry_task_silent : forall body c E dyn desel w t f,
   dry_run c = true ->
   let r := run_task body c E dyn desel w t f in
@@ -37,7 +37,23 @@ Proof.
     apply db_changes_only_on_success_or_persist; auto; intros C; rewrite C in R; discriminate.
 Qed.
 
+(* the whole world - files and recorded states - is unchanged, for every project, selection,
+   schedule and marker placement (F22, repaired: a dry run used to record PERSISTENCE rows) *)
+Theorem C10_dry_run_world_unchanged : forall is_word lower body c ts faults pref w,
+  dry_run c = true -> x_world (build is_word lower body c ts faults pref w) = w.
+Proof. exact dry_run_world_unchanged. Qed.
+
+(* "that real build executes exactly the tasks it would have executed had the dry run not
+   taken place": every later build is literally the same function of the same world *)
+Theorem C10_dry_run_does_not_interfere : forall is_word lower body c ts faults pref w c' ts' faults' pref',
+  dry_run c = true ->
+  build is_word lower body c' ts' faults' pref' (x_world (build is_word lower body c ts faults pref w))
+  = build is_word lower body c' ts' faults' pref' w.
+Proof. exact dry_run_does_not_interfere. Qed.
+
 Print Assumptions C10_dry_run_inert.
 Print Assumptions C10_dry_run_inert_rejected.
 Print Assumptions C10_dry_task_silent.
 Print Assumptions C10_dry_db_only_persist.
+Print Assumptions C10_dry_run_world_unchanged.
+Print Assumptions C10_dry_run_does_not_interfere.
